@@ -388,7 +388,11 @@ META = {
              "break, continue and return anywhere (no code after a jump statement in the same block unless it is labelled), "
              "local ARRAYS of integers (`T a[n];`, `x = a[i];`, `a[i] = e;` with any index expression: out-of-bounds index or a read of an "
              "element without value = undefined; the element address is `(unsigned long)i * sizeof *a` added to the one allocation of the "
-             "array, elements laid out in its bytes), over F1's expressions on "
+             "array, elements laid out in its bytes); the expressions of assignments, initialisers, expression statements, `return`, "
+             "the conditions of if/while/do/for, the controlling expression of switch and stored array values may READ ARRAY "
+             "ELEMENTS and CALL FUNCTIONS anywhere inside (a[i] and f(args) with pure index/arguments, under casts, unary minus, "
+             "binary operators, &&, ||, ?: - except an array read in the first operand of ?:, which condexpr constant-folds); "
+             "all over F1's expressions on "
              "parameters and locals (lower2_correct, lower2_correct_in, lower2_correct_exact).  Statement: whenever the C semantics "
              "(Model/CSem.lean, Model/CSem2.lean over Spec/CInt.lean: big-step execution with fuel over a store in which "
              "uninitialised objects are indeterminate; `none` = undefined behaviour) makes the call return v on arguments rho, the IL "
@@ -407,8 +411,9 @@ META = {
              "activations (64 bytes + at most 32 per variable each), the module of ALL emitted functions run from entry returns a "
              "representation of v - nested frames, recursion, the caller's memory untouched by the callee; tied to the compiler by "
              "the same three comparisons on generated programs.  Outside F1/F2/programs (floats, "
-             "pointers other than the implicit one of a subscripted local array, array accesses inside larger expressions, array "
-             "initialisers, aggregates, bit-fields, goto, calls inside expressions, indirect and variadic calls, non-scalar initialisers, "
+             "pointers other than the implicit one of a subscripted local array, array initialisers, nested subscripts/calls inside "
+             "an index or an argument, side effects inside expressions, aggregates, bit-fields, goto, indirect and variadic calls, "
+             "non-scalar initialisers, "
              "VLAs, unreachable code after a jump) "
              "nothing is proved: there the check is translation validation - every program of the typed generator "
              "gen/cprog.py is compiled by the freshly built cproc-qbe, its real IL is executed under the formal IL semantics and the "
